@@ -345,7 +345,9 @@ def gen_func(rng, name, tier, method=False):
         rng.shuffle(doc_params)
     doc = {'raw': 'text', 'params': doc_params,
            'returns': None if ret in ('absent', 'none') else [respell(rng, ret) if rng.random() < 0.35 else ret]}
-    return {'name': name, 'params': params, 'ret': ret, 'doc': doc, 'method': method}
+    # the kind of `def`: a coroutine function (async def) has the same signature, annotations and __doc__ as the plain function with the
+    # same header - the property makes no difference, docstring checking applies to it in the same way
+    return {'name': name, 'params': params, 'ret': ret, 'doc': doc, 'method': method, 'async': rng.random() < 0.3}
 
 
 def render_func(f, deco, indent=''):
@@ -361,7 +363,7 @@ def render_func(f, deco, indent=''):
             ps.append('*'); star_done = True
         ps.append(p['name'] + a + (' = None' if p['default'] else ''))
     r = '' if f['ret'] == 'absent' else ' -> None' if f['ret'] == 'none' else ' -> ' + rt_ann(f['ret'])
-    lines = [indent + d for d in deco] + [f'{indent}def {f["name"]}({", ".join(ps)}){r}:']
+    lines = [indent + d for d in deco] + [f'{indent}{"async " if f.get("async") else ""}def {f["name"]}({", ".join(ps)}){r}:']
     d = f['doc']
     b = indent + '    '
     if d['raw'] == 'empty':
@@ -958,6 +960,8 @@ def judge_docstring(c, impl, model):
                             f'decoration raised {got} instead of PedanticDocstringException')
                 else:
                     viol = f'docstring inconsistent with the signature ({where}): decoration raised {got} instead of PedanticDocstringException'
+    if viol and any(f.get('async') for f in c['funcs']):
+        viol += ' [coroutine functions (async def) in the module: ' + ', '.join(f['name'] for f in c['funcs'] if f.get('async')) + ']'
     # self checks of the generator
     gen = None
     edited = mf[c.get('edited', 0)]['flags'] if c['stream'] == 'docstring' and mf and 0 <= c.get('edited', 0) < len(mf) else None
@@ -1093,7 +1097,7 @@ def run(tier, seed, replay=None):
     # ---- stream docstring
     impl, model, frag = evaluate(cases) if cases else ([], [], [])
     hist = {'kind': {}, 'mode': {}, 'outcome': {}, 'demanded': {}, 'params': {}, 'edit_depth': {}, 'sub': {}, 'hiding_classes': {},
-            'layout': {}, 'inherit_form': {}, 'inherit_demanded': {}}
+            'layout': {}, 'inherit_form': {}, 'inherit_demanded': {}, 'def_kind_of_edited_function': {}}
     disagreements, gen_problems, roundtrip, out_of_fragment = [], [], [], 0
 
     def bump(h, k):
@@ -1107,6 +1111,9 @@ def run(tier, seed, replay=None):
         ck.note_case(key, nontrivial=(not c['kind'].startswith('consistent') or sum(len(f['params']) for f in c['funcs']) >= 1))
         bump('kind', c['kind']); bump('mode', c['mode']); bump('sub', c.get('sub', 'valid'))
         bump('layout', c.get('layout', 'flat'))
+        ed = c.get('edited', 0)
+        bump('def_kind_of_edited_function', (c.get('layout', 'flat') if c['mode'] != 'class' or c.get('layout') else 'class') + '/' + c['mode'] + '/'
+             + ('async def' if 0 <= ed < len(c['funcs']) and c['funcs'][ed].get('async') else 'def'))
         if c.get('layout') == 'inherit':
             bump('inherit_form', c['mode'] + '/' + c['form'] + ('' if c['form'] == 'deco' or c['mode'] == 'class' else '/' + c.get('via', 'cls')))
             bump('inherit_demanded', c['kind'].split('_')[0] + ':' + str(st.get('demanded')))
